@@ -1,23 +1,27 @@
 #!/bin/bash
-# seed_run.sh <seed id e.g. C01a> [props...]: apply the seeded change to /repo, run the quick checks of the given
-# properties (default: the property the change was written against), undo it, record the outcome in seeded/<id>/result.json
+# seed_run.sh <seed id e.g. C01a> [props...]: apply the seeded change to a SCRATCH COPY of /repo's HEAD (a git worktree
+# under /tmp/seedwt; /repo itself stays untouched so that other work reading it is not disturbed), run the quick checks of
+# the given properties (default: the property the change was written against) with VERIF_REPO pointing at the copy, remove
+# the copy, record the outcome in seeded/<id>/result.json. (`git -C /repo apply <patch>; ./check …; git -C /repo checkout -- .`
+# is the equivalent in-place procedure.)
 set -u
 ID=$1; shift
 P=${ID:0:3}
 PROPS=${@:-$P}
 D=/verif/seeded/$ID
+WT=/tmp/seedwt
 cd /verif
-git -C /repo diff --quiet || { echo "/repo not clean"; exit 2; }
-git -C /repo apply --3way $D/patch.diff 2>/tmp/seed_apply.err || git -C /repo apply $D/patch.diff || { echo "$ID: patch does not apply to /repo HEAD"; cat /tmp/seed_apply.err | tail -3; git -C /repo checkout -- .; exit 2; }
-git -C /repo reset -q 2>/dev/null
+git -C /repo worktree remove --force $WT 2>/dev/null; rm -rf $WT
+git -C /repo worktree add -q --detach $WT HEAD || exit 2
+git -C $WT apply --check $D/patch.diff 2>/tmp/seed_apply.err || { echo "$ID: patch does not apply to /repo HEAD"; tail -3 /tmp/seed_apply.err; git -C /repo worktree remove --force $WT; exit 2; }
+git -C $WT apply $D/patch.diff
 res="{"
 for p in $PROPS; do
-  out=$(timeout 3000 ./check $p quick 2>&1); rc=$?
+  out=$(VERIF_REPO=$WT timeout 3000 ./check $p quick 2>&1); rc=$?
   line=$(echo "$out" | grep -m1 "^VIOLATION" || true)
   echo "$ID $p rc=$rc ${line:0:160} | $(echo "$out" | tail -1 | cut -c1-160)"
   [ -n "$line" ] && cp "$(echo "$line" | sed 's/.*replay=\([^ ]*\).*/\1/')" $D/replay-$p.json 2>/dev/null
   res="$res\"$p\":{\"rc\":$rc,\"violation\":\"$(echo "$line" | sed 's/"/\\"/g')\"},"
 done
-git -C /repo checkout -- . ; git -C /repo clean -fdq
+git -C /repo worktree remove --force $WT; git -C /repo worktree prune
 echo "${res%,}}" > $D/result.json
-git -C /repo diff --quiet && echo "$ID: /repo restored"
